@@ -48,6 +48,15 @@ class SemgrepRuleDetector(BaseDetector):
         yaml_files = self.get_yaml_files(codemod_id)
         with context.timer.measure("semgrep"):
             files_to_analyze = context.semgrep_results_for_rule(codemod_id)
+            if context.semgrep_prefilter_results:
+                # The pre-filter scanned the files as they were when the run
+                # started: a file rewritten by an earlier codemod of this run
+                # may match now
+                files_to_analyze = list(
+                    dict.fromkeys(
+                        [*files_to_analyze, *context.rewritten_python_files()]
+                    )
+                )
             return semgrep_run(context, yaml_files, files_to_analyze)
 
 
